@@ -425,6 +425,10 @@ def report(ctx, task, res):
     if not bad(r):
         t2, r = task, res
     feats = cc.feature_sig(base_doc(t2))
+    if t2["doc_t"]["mode"] == "CMYK" and set(cc.blend_modes(t2["doc_t"])) & set(cc.NONSEP_UP):
+        # root cause outside the compositor: the CMYK wrapper of the non-separable blend functions returns values
+        # outside [0,1] (known findings of C12), which breaks hypothesis BOk of the theorems
+        feats = "cmyk-non-separable"
     if r["error"]:
         sig = f"{law_prefix(law)}/exception/{r['error']['type']}/{feats}"
         ctx.fail(sig, f"the compositor raises {r['error']['type']} ({r['error']['msg']}) at {r['error']['where']}", law_json(t2),
